@@ -21,14 +21,15 @@ def extra(cases, verdicts):
 PROP = dict(
     proof_modules=["VrpProofs.C15"], model_modules=["VrpModel.Route", "VrpModel.C06", "VrpModel.C15"],
     drv="drv_c15", bin="c15", nontrivial=nontrivial, extra_evidence=extra,
-    rule="1-5 vehicles with feasible tours of 0-6 activities over one metric matrix, 1-6 unassigned single-task candidate jobs; the real "
+    rule="1-5 vehicles with feasible tours of 0-6 activities over one metric matrix, 1-6 unassigned single-task candidate jobs, in a third of the cases plus 2-5 multi-task (pickup-then-delivery) candidates interleaved; the real "
          "PositionInsertionEvaluator::evaluate_all (Exhaustive, BestResultSelector) inside rayon pools of 1,2,3,4,8,16 threads, 3 repeats each, "
          "and a sequential scan of unpruned eval_job_insertion_in_route calls for every (route, job). Non-trivial: at least two successes "
          "with different costs. Corpus: two non-metric cases (known finding S9, out of hypothesis). Distinct = SHA-256 of the canonical input",
     modelled="rosomaxa::utils::parallel::fold_reduce (rayon fold+reduce contract as all split trees), cartesian_product work list, "
              "InsertionResult::choose_best_result, the alternative pruning of eval_job_insertion_in_route, and (from C06) the cost of every "
              "(route, job) pair",
-    traced="solver runs under Parallelism::new(p, t) layouts are validated by the C01-C03 campaign oracles, not here",
+    traced="eval_multi (multi-task candidates): their unpruned pair cost is taken from the implementation's own sequential scan, only the "
+           "split-independence oracle applies to them; solver runs under Parallelism::new(p, t) layouts are validated by the C01-C03 campaign oracles, not here",
     out_of_model="actual thread interleavings and work stealing (the theorem covers every partition and bracketing rayon's contract allows; "
                  "data races are excluded by Rust's type system)",
     assumptions=["cost comparison is a linear order (C09: lexicographic order of cost vectors)",
